@@ -80,11 +80,25 @@ def main():
             escalate(chk, mod)
     except core.LeanError as e:
         chk.fail("broken", "lean-driver", f"model driver failed: {e}", {"error": str(e)})
-    except Exception:
+    except Exception as e:
         traceback.print_exc()
-        if th:
-            th.join()
-        sys.exit(2)
+        drift = [] if args.replay else core.source_drift(prop)
+        if not drift:
+            if th:
+                th.join()
+            sys.exit(2)
+        # The correspondence could not be carried out AND the code under the model is not the code it was last validated
+        # against (anchors.json): the harness met behaviour of the implementation it cannot evaluate.  The property is
+        # then no longer shown to hold: reported as a broken correspondence (no-failing-input-found) naming where the
+        # evaluation stopped, instead of a harness error.  On the recorded tree the same exception stays exit 2.
+        tb = traceback.extract_tb(e.__traceback__)
+        where = tb[-1] if tb else None
+        chk.fail("broken", "correspondence-not-evaluable",
+                 f"the correspondence for {prop} stopped with {type(e).__name__}: {str(e)[:200]}"
+                 + (f" at {os.path.basename(where.filename)}:{where.lineno} ({where.name})" if where else "")
+                 + f"; anchored files that differ from the recorded tree: {drift}",
+                 {"correspondence": f"harness/{prop.lower()}.py run", "exception": type(e).__name__,
+                  "source_drift": drift})
     finally:
         if chk.lean is not None:
             chk.lean.close()
